@@ -38,7 +38,7 @@ impl RuleCheckSlot for AdaptiveSlot {
         if !passed {
             // never panic
             ctx.set_result(TokenResult::new_blocked_with_cause(
-                BlockType::SystemFlow,
+                BlockType::Isolation,
                 "concurrency exceeds threshold".into(),
                 rule.unwrap(),
                 snapshot.unwrap(),
